@@ -86,6 +86,10 @@ def gen_update_opts(rng, info, prior_kind, allow_sub=True, api=None):
             u['path'] = rng.choice(subs)
     if u['api'] == 'cli':
         u.pop('sort', None)      # no CLI flag for it
+    elif rng.random() < 0.2 and prior_kind != 'absent':
+        u['pre_verify'] = rng.choice(['', ''] + [d for d in info['dirs'] if d][:3])
+        if info.get('files'):
+            u['pre_lookup'] = rng.choice(info['files'])
     return u
 
 
@@ -174,6 +178,7 @@ def gen_history(rng, cfg=None):
     # targeted prior state: a sub-Manifest refreshed out of band (its parents keep the old MANIFEST entry) and a
     # sub-directory update somewhere else, in a directory whose entries live in one of those parents
     force_path = None
+    force_pre_verify = False
     if prior != 'absent' and rng.random() < cfg.get('p_sibling_oob', 0.1):
         subs = [m for m in manifests if '/' in m['p'] and any(e.get('tag') in ('DATA', 'MISC', 'EBUILD') and 'hashes' in e for e in m['entries'])]
         if subs:
@@ -183,11 +188,26 @@ def gen_history(rng, cfg=None):
             mdirs_ = set(os.path.dirname(m['p']) for m in manifests)
             cand = [d for d in info['dirs'] if d and not any(c.startswith('.') for c in d.split('/'))
                     and d not in mdirs_ and not GT.psw(d, sdir) and not GT.psw(sdir, d)]
-            if cand:
+            if cand and rng.random() < 0.5:
                 force_path = rng.choice(cand)
                 first_edits = first_edits + [{'m': 'rewrite', 'p': sdir + '/' + fe['path'], 'c': GT.rand_content(rng)},
                                              {'m': 'manifest', 'p': sib['p'], 'entries': sib['entries']},
                                              {'m': 'add', 'p': force_path + '/oob-new', 'k': 'file', 'c': GT.rand_content(rng)}]
+            elif cand:
+                # variant: the sibling's file is ALSO listed, with other hash names, in the Manifest that receives the
+                # entries of the updated directory, and the loader verifies the tree before it updates
+                force_path = rng.choice(cand)
+                holders = [m for m in manifests if m is not sib and os.path.basename(m['p']).startswith('Manifest')
+                           and GT.psw(force_path, os.path.dirname(m['p'])) and GT.psw(sdir, os.path.dirname(m['p']))]
+                if holders:
+                    holders.sort(key=lambda m_: -len(os.path.dirname(m_['p'])))
+                    par = holders[0]
+                    other = [h for h in G.SUPPORTED_HASHES if h not in fe['hashes']]
+                    rng.shuffle(other)
+                    rel = os.path.relpath(sdir + '/' + fe['path'], os.path.dirname(par['p']) or '.')
+                    par['entries'] = par['entries'] + [{'tag': fe['tag'], 'path': rel, 'hashes': sorted(other[:rng.choice([1, 2])])}]
+                    force_pre_verify = True
+                first_edits = first_edits + [{'m': 'add', 'p': force_path + '/oob-new', 'k': 'file', 'c': GT.rand_content(rng)}]
     rounds = []
     nr = rng.choice([1, 1, 2, 2, 3, 4])
     for i in range(nr):
@@ -196,6 +216,9 @@ def gen_history(rng, cfg=None):
         if force_path is not None and i == 0:
             u['path'] = force_path
             u.pop('create', None)
+            if force_pre_verify:
+                u['api'] = 'lib'
+                u['pre_verify'] = ''
         if special_hashes and i == 0:
             u['hashes'] = special_hashes      # the requested set equals the existing one: nothing else is dirty
             u.pop('force', None)
